@@ -106,6 +106,15 @@ func verifL_Failover(n int, generic bool, faults bool, sameKey bool, env bool) {
 // prior: one complete Get (with its background build) runs before the concurrent burst, so that
 // whatever a finished Get leaves behind in the Failover is part of the initial state
 func verifL_FailoverP(n int, generic bool, faults bool, sameKey bool, env bool, prior bool) {
+	verifL_FailoverQ(n, generic, faults, sameKey, env, prior, false)
+}
+
+// collide: every Get uses its own key (thread t uses key t%2) and all hashing is an uninterpreted
+// function, so the solver may make the two keys collide in any hash the code under test computes
+func verifL_FailoverQ(n int, generic bool, faults bool, sameKey bool, env bool, prior bool, collide bool) {
+	if collide {
+		verifOption("hash-uf")
+	}
 	verifOption("deadlock")
 	st := &verifL2Store{errFault: errors.New("backend fault"), faultsOn: faults}
 	st.now = verifInt64("now")
@@ -215,7 +224,9 @@ func verifL_FailoverP(n int, generic bool, faults bool, sameKey bool, env bool, 
 			t := t
 			verifThread("get", func() {
 				k := 0
-				if !sameKey {
+				if collide {
+					k = t % verifL2Keys
+				} else if !sameKey {
 					k = verifChoice("key", verifL2Keys)
 				}
 				threadKey[t] = k
@@ -262,7 +273,9 @@ func verifL_FailoverP(n int, generic bool, faults bool, sameKey bool, env bool, 
 			t := t
 			verifThread("get", func() {
 				k := 0
-				if !sameKey {
+				if collide {
+					k = t % verifL2Keys
+				} else if !sameKey {
 					k = verifChoice("key", verifL2Keys)
 				}
 				threadKey[t] = k
@@ -296,15 +309,17 @@ func verifL_FailoverP(n int, generic bool, faults bool, sameKey bool, env bool, 
 	verifRunThreads()
 }
 
-func verifL_Failover_2()          { verifL_Failover(2, false, false, false, false) }
-func verifL_FailoverOf_2()        { verifL_Failover(2, true, false, false, false) }
-func verifL_Failover_2_faults()   { verifL_Failover(2, false, true, true, false) }
-func verifL_FailoverOf_2_faults() { verifL_Failover(2, true, true, true, false) }
-func verifL_Failover_3()          { verifL_Failover(3, false, false, true, false) }
-func verifL_FailoverOf_3()        { verifL_Failover(3, true, false, true, false) }
-func verifL_Failover_2_env()      { verifL_Failover(2, false, false, false, true) }
-func verifL_FailoverOf_2_env()    { verifL_Failover(2, true, false, false, true) }
-func verifL_Failover_1_env()      { verifL_Failover(1, false, false, false, true) }
-func verifL_FailoverOf_1_env()    { verifL_Failover(1, true, false, false, true) }
-func verifL_Failover_2_prior()    { verifL_FailoverP(2, false, false, false, false, true) }
-func verifL_FailoverOf_2_prior()  { verifL_FailoverP(2, true, false, false, false, true) }
+func verifL_Failover_2()           { verifL_Failover(2, false, false, false, false) }
+func verifL_FailoverOf_2()         { verifL_Failover(2, true, false, false, false) }
+func verifL_Failover_2_faults()    { verifL_Failover(2, false, true, true, false) }
+func verifL_FailoverOf_2_faults()  { verifL_Failover(2, true, true, true, false) }
+func verifL_Failover_3()           { verifL_Failover(3, false, false, true, false) }
+func verifL_FailoverOf_3()         { verifL_Failover(3, true, false, true, false) }
+func verifL_Failover_2_env()       { verifL_Failover(2, false, false, false, true) }
+func verifL_FailoverOf_2_env()     { verifL_Failover(2, true, false, false, true) }
+func verifL_Failover_1_env()       { verifL_Failover(1, false, false, false, true) }
+func verifL_FailoverOf_1_env()     { verifL_Failover(1, true, false, false, true) }
+func verifL_Failover_2_prior()     { verifL_FailoverP(2, false, false, false, false, true) }
+func verifL_FailoverOf_2_prior()   { verifL_FailoverP(2, true, false, false, false, true) }
+func verifL_Failover_2_collide()   { verifL_FailoverQ(2, false, false, false, false, false, true) }
+func verifL_FailoverOf_2_collide() { verifL_FailoverQ(2, true, false, false, false, false, true) }
